@@ -18,6 +18,10 @@ CLAIMED["C10"] = ("4/C10", "Inductive step from symbolic pre-states (node unknow
 CLAIMED["C11"] = ("4/C11", "The real id-request handler is run on registries of 0..3(4) nodes whose ids are symbolic in [0,255] (so every subset shape of that size is covered by the solver) with symbolic request addressing; z3 decides freshness, range, registration-before-write, response addressing, the too-many-nodes clause, and distinctness over two requests. Path tree exhausted; bounded model checking.")
 CLAIMED["C05"] = ("4/C05", "(a1) the real get_protocol body is executed with symbolic major/minor in [0,10^6] (version parser replaced by a contract stub that is itself checked against the real AwesomeVersion on the grid) and z3 decides that the selected protocol is the newest one <= major.minor; (a2) the real parser end to end on a realised grid of 750 version texts (enumeration, stated as such); (b) histories of accepted and rejected version reports: reported version, active protocol, schema context and the type gate actually in force agree after every step; (c) internal/stream type gate per version with the type symbolic in [-2,99999] against table sizes hard-coded from the MySensors serial API. Path trees exhausted; bounded model checking.")
 CLAIMED["C03"] = ("4/C03", "The real Gateway.listen, all incoming handlers of the five protocol modules and StreamTransport.read are executed on (i) malformed lines (field counts, class texts, out-of-range integers), (ii) well-formed lines with symbolic ids, symbolic type numbers in [-2,99999] and a payload class list through the real float()/int()/version parser, from states with version known/unknown, node/child known/unknown, sleeping or not, and (iv) symbolic byte strings; on every path the outcome must be a message or a subclass of AIOMySensorsError, and after an error the same gateway must handle the next well-formed line. Path trees exhausted (the thorough raw-line hunt is non-deciding and reported as such); bounded model checking.")
+CLAIMED["C07"] = ("4/C07", "Inductive step of the real Gateway.send / outgoing set handler / wake handlers from 32 symbolic pre-states (sleeping flags, parked commands present or absent for three keys over two nodes with symbolic ids) with one event of 16 kinds, compared after the step with a last-writer-wins model (writes as multiset, registry, complete buffer contents), for all five versions, plus 2-3 event histories. Because the complete state is compared after every step, one step from an arbitrary state covers histories of any length within the shape bound. Path tree exhausted; bounded model checking.")
+CLAIMED["C08"] = ("4/C08", "The real flush loop runs over a transport stub whose every write attempt has its own symbolic fault bit (so the solver covers all subsets and positions of failing writes), across 2-3 wakes of two nodes with up to four parked commands; after every wake each command must be parked xor written exactly once, a faulted wake must raise a transport error out of listen, and fault-free wakes must release the rest. Path tree exhausted; bounded model checking.")
+CLAIMED["C09"] = ("4/C09", "The real listener (flush) and 1-3 real send coroutines run under a cooperative scheduler in which the task resumed at each transport-write suspension point is a symbolic input; the path tree therefore enumerates every feasible interleaving (asyncio has no other preemption points). At quiescence z3-decided assertions check last-sent == last-written per key, no unsent value written, no value written twice. Path tree exhausted; bounded model checking over schedules.")
+CLAIMED["C12"] = ("4/C12", "The real Gateway.send and outgoing handlers are executed for every command with symbolic node/child/ack/type/payload, symbolic buffering flag and destination unknown/awake/sleeping; each path must end in exactly one of: the exact encoded line written, held and written at the destination's next wake (the wake is then fed to listen), or a library error; non-message objects must be rejected as InvalidMessageError. Path tree exhausted; bounded model checking.")
 PENDING = {
 }
 
